@@ -2,6 +2,7 @@
 import json
 import random
 
+from vlib import clip as vclip
 from vlib import unreproduced as vlib_unreproduced, Broken, Verdict, read_ndjson, write_ndjson, require_coverage
 
 TRACE_CFG = "SPECIFICATION Spec\nCHECK_DEADLOCK TRUE\n"
@@ -21,7 +22,7 @@ def normalise(o):
     scn = o.get("scn") or {}
     return {"id": scn.get("id", -1), "shape": scn.get("shape", ""), "framing": (scn.get("framing") or {}).get("kind", ""), "nframes": 0, "maxlen": 0, "tags": [],
             "parsed": False, "streamlen": 0, "injerr": False, "baseok": False, "result": "crashed" if o.get("crashed") else "hung",
-            "err": ("CRASHED: " if o.get("crashed") else "HUNG: " if o.get("hung") else "HARNESS: " + str(o.get("harness_error"))) + (o.get("stderr") or "")[-1500:],
+            "err": ("CRASHED: " if o.get("crashed") else "HUNG: " if o.get("hung") else "HARNESS: " + str(o.get("harness_error"))) + vclip(o.get("stderr"), 1500),
             "same": False, "msgok": False, "outframes": 0, "scn": scn}
 
 
